@@ -124,6 +124,16 @@ def run(ctx):
             vlib.tlc_ok(ctx, r, "MC_AnkoCancel")
         else:
             vlib.tlc_must_fail(ctx, r, "wrong design %s must be refuted" % c[4:], expect=exp)
+    # the same two safety properties for EVERY set of wrapper stacks (any depth): an inductive invariant checked by the TLA+ proof system
+    ok, nobl, nfail, tail = vlib.run_tlapm(ctx, "AnkoCancelProofs")
+    ctx.cov["tlaps"] = {"module": "AnkoCancelProofs", "obligations": nobl, "failed": nfail}
+    if not ok:
+        raise Broken("the proof of NoSwallow / ResultIsInterrupt for stacks of any depth no longer checks:\n" + tail)
+    if not ctx.quick():
+        ok2, _, nfail2, _ = vlib.run_tlapm(ctx, "AnkoCancelProofs", subst=('Variant = "code"', 'Variant = "DeferDrops"'))
+        ctx.cov["controls"].append({"control": "the proof must fail for the wrong design DeferDrops", "detected": not ok2})
+        if ok2:
+            raise Broken("the proof also goes through for the wrong design DeferDrops: it proves nothing")
     progs = programs(ctx)
     maxgate = 14 if ctx.quick() else 30
     n = 12
